@@ -490,10 +490,15 @@ func (p *RegProcessor) processBdReq(c2sPayload *pb.C2SWrapper) (*pb.Registration
 		return nil, ErrRegProcessFailed
 	}
 
+	// Take the selector read lock once for both address selections. sync.RWMutex read locks are not
+	// reentrant: a second RLock issued while ReloadSubnets is waiting for the write lock blocks behind
+	// that writer, which in turn waits for the first read lock -- a permanent deadlock. Holding a
+	// single read lock also guarantees both phantoms come from the same subnet configuration.
+	p.selectorMutex.RLock()
+	defer p.selectorMutex.RUnlock()
+
 	phantomSubnetSupportsRandPort := true
 	if c2s.GetV4Support() {
-		p.selectorMutex.RLock()
-		defer p.selectorMutex.RUnlock()
 		phantom4, err := p.ipSelector.Select(
 			cjkeys.ConjureSeed,
 			uint(c2s.GetDecoyListGeneration()), //generation type uint
@@ -511,8 +516,6 @@ func (p *RegProcessor) processBdReq(c2sPayload *pb.C2SWrapper) (*pb.Registration
 	}
 
 	if c2s.GetV6Support() {
-		p.selectorMutex.RLock()
-		defer p.selectorMutex.RUnlock()
 		phantom6, err := p.ipSelector.Select(
 			cjkeys.ConjureSeed,
 			uint(c2s.GetDecoyListGeneration()),
